@@ -118,6 +118,9 @@ pub struct Fault {
     pub flag: Option<String>,
     #[serde(default)]
     pub errno: Option<i32>,
+    /// clock_step: milliseconds the wall clock jumps by (negative = backwards)
+    #[serde(default)]
+    pub ms: Option<i64>,
     /// fd_limit: number of descriptors the process may hold from now on (0 = lift the limit again)
     #[serde(default)]
     pub n: Option<u64>,
@@ -391,6 +394,7 @@ async fn run_faults(faults: Vec<Fault>) {
                 }
             }
             "fd_limit" => set_fd_limit(f.n.unwrap_or(0)),
+            "clock_step" => sim::step_wall_clock(f.ms.unwrap_or(0)),
             "accept_error" => sim::inject_accept_error(f.port.unwrap_or(0), f.errno.unwrap_or(libc::ECONNABORTED)),
             "reset_host" => {
                 if let Some(ip) = ip {
